@@ -15,6 +15,7 @@ def op_set_row_height(sim: Sim, a) -> str:
     si, ti, tm, table = sim.pick_table(ds, a["s"], a["t"])
     r = a["r"] % tm.nrows
     tm.row_h[r] = a["h"]
+    tm.row_h_seq[r] = tm.stroke_seq
     if sim.real:
         table.row_height(r, a["h"])
     return "ok"
@@ -28,6 +29,7 @@ def op_set_col_width(sim: Sim, a) -> str:
     si, ti, tm, table = sim.pick_table(ds, a["s"], a["t"])
     c = a["c"] % tm.ncols
     tm.col_w[c] = a["w"]
+    tm.col_w_seq[c] = tm.stroke_seq
     if sim.real:
         table.col_width(c, a["w"])
     return "ok"
@@ -70,11 +72,12 @@ def op_set_caption(sim: Sim, a) -> str:
 
 
 def stroke_touches_row(tm, r: int) -> bool:
-    return any(k[0] in (r, r + 1) for k in tm.hedge)
+    """True if a stroke was drawn on an edge of row r AFTER its height was set."""
+    return tm.row_stroke_seq.get(r, 0) > tm.row_h_seq.get(r, 0)
 
 
 def stroke_touches_col(tm, c: int) -> bool:
-    return any(k[1] in (c, c + 1) for k in tm.vedge)
+    return tm.col_stroke_seq.get(c, 0) > tm.col_w_seq.get(c, 0)
 
 
 def reopen_check(sim: Sim, doc, slot) -> None:
